@@ -1,2 +1,27 @@
-(* C02 - closing theorems only. *)
-From Slim Require Import Base Keys Model.
+(* C02 - RangeGet maps every indexed key to the value of its range.
+   Closing theorem only; proofs in theories/SearchProofs.v (rangeget_indexed):
+   for a retained key RangeGet follows Get (C01, C10); for a key de-duplicated
+   away the exact result is empty, the left result is the last retained key
+   before it, and that key carries the same value because every key in between
+   was dropped for having its predecessor's value. *)
+From Slim Require Import Base Keys Model QueryProofs SearchProofs.
+
+Theorem C02_rangeget_indexed :
+  forall (ropt : raw_opt) keys vals T i k,
+    build (normalize ropt) keys vals = Ok T ->
+    nth_error keys i = Some k ->
+    match vals with Some vs => length vs = length keys | None => True end ->
+    exists v, rangeget T k = Ok (Found v) /\ val_bytes v = supplied vals i /\ (vals = None -> v = None).
+Proof. intros ropt keys vals T i k. exact (rangeget_indexed (normalize ropt) keys vals T i k). Qed.
+Print Assumptions C02_rangeget_indexed.
+
+(* a run that starts at a key which is a prefix of later keys and crosses a branch *)
+Definition ex_keys : list key := [ ["097"%byte]; ["097"%byte; "098"%byte]; ["097"%byte; "099"%byte]; ["098"%byte]; ["099"%byte] ].
+Definition ex_vals : option (list (list byte)) := Some [ ["001"%byte]; ["001"%byte]; ["001"%byte]; ["001"%byte]; ["002"%byte] ].
+Definition ex_opt : raw_opt := {| r_dedup := None; r_inner := None; r_leaf := None; r_complete := None |}.
+Example C02_example :
+  exists T, build (normalize ex_opt) ex_keys ex_vals = Ok T /\
+            retained (normalize ex_opt) ex_keys ex_vals 3 = false /\
+            get T ["098"%byte] = Ok NotFound /\
+            rangeget T ["098"%byte] = Ok (Found (Some ["001"%byte])).
+Proof. eexists. repeat split; vm_compute; reflexivity. Qed.
